@@ -68,7 +68,7 @@ class Stiff(nn.Module):
 
 
 def cases(tier, seed):
-    n_nat, n_inj = (70, 50) if tier == "quick" else (700, 500)
+    n_nat, n_inj = (70, 50) if tier == "quick" else (2000, 1500)
     out = []
     for i in range(n_nat):
         out.append({"key": f"nat{i}", "kind": "natural", "rseed": hash((seed, 1, i)) % (2 ** 31), "cost": 3})
